@@ -106,6 +106,8 @@ def run(chk):
         try:
             if plan['ctor_kw']:
                 resp = HTTPResponse('body', status, **{c['name']: c['v'] for c in ctor})
+            elif plan['ctor_dict']:
+                resp = HTTPResponse('body', status, headers={c['name']: c['v'] for c in ctor})
             else:
                 resp = HTTPResponse('body', status, headers=[(c['name'], c['v']) for c in ctor])
             for c in ctor:
@@ -140,14 +142,24 @@ def run(chk):
             v = rand_value(rng)
             if entry == 'setdefault' and isinstance(v, list):
                 continue          # a list argument to setdefault is not a single-value setter
+            if calls and rng.random() < 0.25 and entry in ('append', 'ctor'):
+                # the very same value object offered again for the same name (a shared constant)
+                name, v = calls[-1]['name'], calls[-1]['v']
+                if entry == 'property':
+                    name = calls[-1]['name']
             calls.append({'entry': entry, 'name': name, 'v': v})
         if not calls:
             continue
         calls.sort(key=lambda c: c['entry'] != 'ctor')      # constructor arguments are applied first
         # constructor keyword arguments must be identifiers
         ctor_kw = rng.random() < 0.5 and all(c['name'].replace('-', '').isalnum() and '-' not in c['name'] for c in calls if c['entry'] == 'ctor')
+        # the dict form needs distinct names
+        ctor_names = [c['name'] for c in calls if c['entry'] == 'ctor']
+        ctor_dict = (not ctor_kw) and rng.random() < 0.5 and len(set(ctor_names)) == len(ctor_names)
+        if len(set(ctor_names)) != len(ctor_names):
+            ctor_kw = False          # keyword arguments cannot repeat a name
         status = rng.choice([200, 200, 204, 304, 404, 201])
-        plan.update(calls=calls, status=status, mode=mode, ctor_kw=ctor_kw, **{'raise': rng.random() < 0.4})
+        plan.update(calls=calls, status=status, mode=mode, ctor_kw=ctor_kw, ctor_dict=ctor_dict, **{'raise': rng.random() < 0.4})
         st, line, headers, body, nsr = call_app(app, base_environ(PATH_INFO='/h'))
         if st == 500:
             # e.g. content_length reader is not involved; a 500 here means a setter let something through that broke headerlist
